@@ -5,6 +5,7 @@
 import FtProofs.Lemmas.TraceMachine
 import FtProofs.Lemmas.TraceNest
 import FtProofs.Lemmas.TraceKernel
+import FtProofs.Lemmas.TraceAddr
 namespace Ft
 open Ft.C16
 
@@ -133,6 +134,87 @@ theorem trace_kernel_stamps_sorted (tr : Key → Bool) (dflt : Int) (levels : Li
   · have hb : (k.2 == "iter") = false := by simpa using hit
     rw [hb] at h
     exact ⟨(trace_stamps_sorted tr k i _ _ h).1, fun e => absurd e hit⟩
+
+/-! ### addresses: coordinates and positions name the element touched -/
+
+/-- `iterRange` over a concrete fiber: every `iter` row carries the coordinate of a stored, non-empty
+    element and its index in the fiber (storage position). -/
+theorem trace_iter_addresses {σ S π : Type} (rank : String) (emptyP : π → Bool) (body : S → Int → π → S × σ)
+    (f : Fib Int π) (s : S) (r ty : String) (c pos : Int)
+    (h : Item.use r ty c pos ∈ (iterItems rank emptyP body s 0 f).2) :
+    r = rank ∧ ty = "iter" ∧ ∃ (i : Nat) (p : π), pos = (i : Int) ∧ f[i]? = some (c, p) ∧ emptyP p = false := by
+  obtain ⟨h1, h2, i, p, e1, e2, e3⟩ := iterItems_addr rank emptyP body f s 0 r ty c pos h
+  exact ⟨h1, h2, i, p, by simpa using e1, e2, e3⟩
+
+/-- `iterRange` over a lazy fiber (`a & b`, `z << …`, a projection): every `iter` row carries a yielded
+    coordinate and its index in the yielded sequence. -/
+theorem trace_lazy_iter_addresses {σ S β : Type} (rank : String) (body : S → Int → β → S × σ)
+    (steps : List (Step β)) (s : S) (c pos : Int)
+    (hk : ∀ i, Step.emit i ∈ steps → itemKey i ≠ some (rank, "iter"))
+    (h : Item.use rank "iter" c pos ∈ (lazyItems rank body s 0 steps).2) :
+    ∃ (i : Nat) (p : β), pos = (i : Int) ∧ (yieldsOf steps)[i]? = some (c, p) := by
+  obtain ⟨i, p, e1, e2⟩ := lazyItems_addr rank body steps s 0 c pos hk h
+  exact ⟨i, p, by simpa using e1, e2⟩
+
+/-- `and_iterator`: every `intersect_i` row carries the coordinate of an element of its operand and
+    the index of that element IN THE SEQUENCE THE OPERAND PRESENTS (its non-empty elements).
+    `_partial`: this is the element's index in the fiber only when no empty element is stored before
+    it (`presentAny_eq_children`); on other operands the code reports the ordinal among non-empty
+    elements — open finding `addr:position-is-ordinal-among-nonempty-elements`. -/
+theorem trace_intersect_addresses_partial {α β : Type} (rank tyA tyB : String) (ta tb : Bool) (hAB : tyA ≠ tyB)
+    (a : Fib Int α) (b : Fib Int β) (r ty : String) (c pos : Int)
+    (h : Step.emit (.use r ty c pos) ∈ andSteps rank tyA tyB ta tb 0 0 a b) :
+    r = rank ∧
+    ((ty = tyA ∧ ∃ (i : Nat) (p : α), pos = (i : Int) ∧ a[i]? = some (c, p)) ∨
+     (ty = tyB ∧ ∃ (i : Nat) (p : β), pos = (i : Int) ∧ b[i]? = some (c, p))) := by
+  obtain ⟨h1, h2⟩ := andSteps_addr rank tyA tyB ta tb hAB 0 0 a b r ty c pos h
+  refine ⟨h1, ?_⟩
+  rcases h2 with ⟨e, i, p, e1, e2⟩ | ⟨e, i, p, e1, e2⟩
+  · exact Or.inl ⟨e, i, p, by simpa using e1, e2⟩
+  · exact Or.inr ⟨e, i, p, by simpa using e1, e2⟩
+
+/-- leader-follower intersection: the leader's rows carry the ordinal among the elements it presents
+    (`_partial` as above); the follower's rows (`getPayload(trace=…)`) carry the probed coordinate and
+    its lower-bound position in the follower AS STORED — the element's index when it is present. -/
+theorem trace_follower_addresses_partial {α β : Type} (rankA rankB tyA tyB : String) (ta : Bool) (dfl : β)
+    (b : Fib Int β) (a : Fib Int α) (r ty : String) (c pos : Int)
+    (h : Step.emit (.use r ty c pos) ∈ lfSteps rankA rankB tyA tyB ta dfl b 0 a) :
+    (r = rankA ∧ ty = tyA ∧ ∃ (i : Nat) (p : α), pos = (i : Int) ∧ a[i]? = some (c, p)) ∨
+    (r = rankB ∧ ty = tyB ∧ pos = ((lowerBound b c : Nat) : Int) ∧ ∃ (i : Nat) (p : α), a[i]? = some (c, p)) := by
+  rcases lfSteps_addr rankA rankB tyA tyB ta dfl b a 0 r ty c pos h with ⟨e1, e2, i, p, e3, e4⟩ | h
+  · exact Or.inl ⟨e1, e2, i, p, by simpa using e3, e4⟩
+  · exact Or.inr h
+
+/-- `project_iterator`: every `project_i` row carries the SOURCE coordinate of an element of the
+    projected fiber whose image lies in the interval, and its ordinal among the presented elements
+    (`_partial` as above). -/
+theorem trace_project_addresses_partial {α : Type} (srcRank ty : String) (t : Bool) (off : Int) (lo hi : Option Int)
+    (a : Fib Int α) (s : Nat) (r ty' : String) (c pos : Int)
+    (h : Step.emit (.useSaved s r ty' c pos) ∈ projSteps srcRank ty t off lo hi a) :
+    r = srcRank ∧ ty' = ty ∧ ∃ (i : Nat) (p : α), pos = (i : Int) ∧ a[i]? = some (c, p) ∧
+      inLo lo (c + off) = true ∧ aboveHi hi (c + off) = false := by
+  simp only [projSteps, List.mem_cons, Step.emit.injEq, reduceCtorEq, false_or] at h
+  obtain ⟨_, e2, e3, i, p, e4, e5, e6⟩ := projLoop_addr srcRank ty t off lo hi a 0 s r ty' c pos h
+  exact ⟨e2, e3, i, p, by simpa using e4, e5, e6⟩
+
+/-- `lshift_iterator`, source side and consumer: `populate_i` and `iter` rows of `z << src` carry an
+    offered coordinate and its index in the sequence the source yields (`_partial`: for a concrete
+    source fiber that sequence is the presented one, see above). -/
+theorem trace_populate_src_addresses_partial {σ π β : Type} (cfg : PopCfg) (mk : π) (rm : Bool → π → Bool)
+    (emptyP : π → Bool) (body : Int → π → β → π × σ) (ok : PopTypesOK cfg)
+    (steps : List (Step β)) (z : Fib Int π) (ty : String) (c pos : Int)
+    (hty : ty = cfg.srcTy ∨ ty = "iter")
+    (hk : ∀ i, Step.emit i ∈ steps → itemKey i ≠ some (cfg.rank, ty))
+    (h : Item.use cfg.rank ty c pos ∈ (popItems cfg mk rm emptyP body { z := z } steps).2) :
+    ∃ (i : Nat) (p : β), pos = (i : Int) ∧ (yieldsOf steps)[i]? = some (c, p) := by
+  obtain ⟨i, p, e1, e2⟩ := popItems_src_addr cfg mk rm emptyP body ok steps { z := z } ty c pos hty hk h
+  exact ⟨i, p, by simpa using e1, e2⟩
+
+-- non-vacuity of the address theorems: a fiber with an explicit default at position 0
+example : (iterItems (σ := PUnit) (S := PUnit) "K" (fun (v : Int) => v == 0) (fun s _ _ => (s, PUnit.unit)) PUnit.unit 0
+    [(1, 0), (3, 4), (5, 6)]).2 =
+    [.use "K" "iter" 3 1, .sub PUnit.unit, .inc, .use "K" "iter" 5 2, .sub PUnit.unit, .inc] := by
+  simp [iterItems]
 
 namespace C16
 /-- Gustavson: `for m,(z_n,a_k) in z_m << a_m: for k,(a,b_n) in a_k & b_k: for n,(z,b) in z_n << b_n: z += a*b` -/
